@@ -338,6 +338,20 @@ theorem safe_stepC (s s' : St) (h : SafeInv s) (hs : stepC s = some s') : SafeIn
         exact safe_cpc' s h _ (by rw [exitJoinFrom_sig, hpc]; rfl) (fun _ => hbt)
           (by intro he; rw [exitJoinFrom_sig] at he; simp [csig, enPc] at he)
       · simp at hs
+  · -- midReady
+    rename_i i wid hpc
+    have hbt : s.batch = [] := hd.batchEmpty (by rw [hpc]; rfl)
+    split at hs
+    · simp at hs
+    · split at hs
+      · split at hs
+        · simp only [Option.some.injEq] at hs
+          subst hs
+          exact safe_cpc' s h _ (by rw [hpc]; rfl) (fun _ => hbt) (by intro he; simp [csig, enPc] at he)
+        · simp only [Option.some.injEq] at hs
+          subst hs
+          exact safe_afterBatch s h (by rw [hpc]; rfl) hbt
+      · simp at hs
   · -- done
     simp at hs
 
